@@ -76,14 +76,24 @@ func ConfigByName(name string) (NamedConfig, bool) {
 	return NamedConfig{}, false
 }
 
-// NegativeControl: n=3 equal power with one Byzantine node holds exactly 1/3 (not < 1/3).
+// NegativeControl: powers 3/1/1/1/1 with the Byzantine node holding 3 of 7 (>= 1/3): two
+// quorums of 5 that share only the Byzantine node exist, so an equivocating leader can fork
+// the chain. The search must find that fork, otherwise the oracle has not been shown to fire.
 func NegativeControl() NamedConfig {
-	return NamedConfig{Name: "n3-equal-byz0-rh10-NEGATIVE", Cfg: Config{Powers: []uint64{1, 1, 1}, Byz: 0, BaseRH: 10, Timeouts: eqTimeouts(10)}, Negative: true}
+	probe := New(Config{Powers: []uint64{3, 1, 1, 1, 1}, Byz: 0, BaseRH: 2, Timeouts: eqTimeouts(10)})
+	rh := uint64(2)
+	for ; rh < 40; rh++ {
+		if probe.PredictLeader(rh, 0) == 0 {
+			break
+		}
+	}
+	return NamedConfig{Name: fmt.Sprintf("n5-weighted31111-byz0-rh%d-NEGATIVE", rh), Cfg: Config{Powers: []uint64{3, 1, 1, 1, 1}, Byz: 0, BaseRH: rh, Timeouts: eqTimeouts(10)}, Negative: true}
 }
 
 type stateRec struct {
 	cfg  string
 	path []int
+	w    *World // live world at that state (cloned before any further use)
 }
 
 // Main is the entry point shared by C01 (agreement), C14 (evidence soundness) and C15 (liveness tail).
@@ -132,9 +142,10 @@ func Main(id string) {
 	forkStates := 0
 	cfgs := Configs(r.Quick())
 	if id == "C01" {
-		cfgs = append(cfgs, NegativeControl())
+		cfgs = append([]NamedConfig{NegativeControl()}, cfgs...) // cheap, and must not be cut by the deadline
 	}
 	negativeForks := 0
+	var auditedTotal int64
 	for _, nc := range cfgs {
 		if *cfgFlag != "" && nc.Name != *cfgFlag {
 			continue
@@ -142,13 +153,16 @@ func Main(id string) {
 		nc := nc
 		d := depth
 		if nc.Negative {
-			d = 3
+			d = 1 // the Byzantine node leads round 0 of the control's root height: one round suffices
 		}
-		st := mc.ReplayBFS(mc.BFSConfig{
-			Tag: nc.Name, NumOps: len(AllScenarios), MaxDepth: d,
-			Exec:   func(path []int) mc.ExecResult { return Exec(nc.Name, nc.Cfg, path) },
-			OpsFor: func(path []int, info string) []int {
-				ops := OpsFor(ParseInfo(info), reduced)
+		audit := 2
+		if !r.Quick() {
+			audit = 3
+		}
+		st := MemBFS(MemBFSConfig{
+			NC: nc, MaxDepth: d, AuditDepth: audit,
+			OpsFor: func(path []int, info Info) []int {
+				ops := OpsFor(info, reduced && !nc.Negative)
 				if maxBumps < 0 {
 					return ops
 				}
@@ -184,15 +198,16 @@ func Main(id string) {
 					mu.Unlock()
 				}
 			},
-			OnState: func(path []int, _ *mc.ExecResult) {
-				if !nc.Negative {
+			OnState: func(path []int, w *World) {
+				if !nc.Negative && id != "C01" {
 					mu.Lock()
-					states = append(states, stateRec{nc.Name, append([]int{}, path...)})
+					states = append(states, stateRec{nc.Name, append([]int{}, path...), w})
 					mu.Unlock()
 				}
 			},
 			Stop: r.Expired,
 		})
+		auditedTotal += st.Crashes
 		if !nc.Negative {
 			totalStates += st.States
 			totalTrans += st.Transitions
@@ -213,6 +228,7 @@ func Main(id string) {
 	}
 	cov := map[string]any{"states": totalStates, "transitions": totalTrans, "traces_validated_against_impl": int(totalTrans),
 		"per_config": perCfg, "depth_bound_rounds": depth, "reduced_alphabet": reduced, "max_root_bumps_per_path": maxBumps, "scenario_alphabet": len(AllScenarios),
+		"successors_cross_checked_clone_vs_replay": auditedTotal,
 		"explanation": "a transition is one whole consensus round executed on n real bft.BFT instances (HandlePhase/HandleMessage/NewHeight); there is no separate model, so every explored trace is an implementation trace"}
 	switch id {
 	case "C01":
@@ -235,7 +251,8 @@ func livenessPass(r *mc.Run, states []stateRec, cov map[string]any) {
 	done := mc.ParallelFor(len(states), 0, r.Expired, func(i int) {
 		nc, _ := ConfigByName(states[i].cfg)
 		for mode := 0; mode < 2; mode++ {
-			w, ok := Replay(nc.Cfg, states[i].path, false)
+			_ = nc
+			w, ok := states[i].w.Clone(), true
 			// a prefix in which an honest node already committed has its block: after GST the
 			// committed certificate is gossiped and adopted through the block path (C02's gate)
 			if !ok || w.Info().Terminal || len(w.DistinctCommits()) > 0 {
@@ -297,11 +314,7 @@ func evidencePass(r *mc.Run, states []stateRec, cov map[string]any) {
 	var mu sync.Mutex
 	var pairs, implicated, withConflict int
 	done := mc.ParallelFor(len(states), 0, r.Expired, func(i int) {
-		nc, _ := ConfigByName(states[i].cfg)
-		w, ok := Replay(nc.Cfg, states[i].path, false)
-		if !ok {
-			return
-		}
+		w := states[i].w.Clone()
 		vs, p, im := w.EvidenceViols(states[i].cfg, states[i].path)
 		mu.Lock()
 		pairs += p
